@@ -237,7 +237,7 @@ def run(tier):
             rep.check(guarded, "guarded-delegation", "%s:%s%s" % (short(f.key), kind, (" " + pref) if pref else ""),
                       "%s: without a lexical guard texts outside the core schema are typed as numbers" % what, site=site(f, t["sp"]),
                       detail={"argument": cfg.expr_str(arg)})
-    rep.floor("permissive std parser calls needing a guard", n, 2)
+    rep.floor("permissive std parser calls needing a guard", n, 1)
     # (e) no parsed number is converted with a lossy `as`
     from engine import callgraph
     edges, _ = callgraph.build(F)
